@@ -211,6 +211,9 @@ def cut_case(ctx, case):
     if r['alive'] == 'timeout':
         from vlib.core import HarnessError
         raise HarnessError('C15 case did not settle: %r' % (case,))
+    if r['alive'] == 'blocked':
+        ctx.fail('cut', 'H2-blocked-in-read', case)
+        return
     if r['alive'] == 'idle':
         ctx.fail('cut', 'H2-thread-did-not-terminate', case,
                  'thread idles for ever after end-of-stream')
